@@ -28,7 +28,7 @@ def harness_fault():
 @st.composite
 def cases(draw, tier="quick"):
     kind = draw(st.sampled_from(["readers", "readers", "readers", "cz", "xw", "failcopy"]))
-    case = dict(kind=kind, pool=draw(st.integers(0, 6)))
+    case = dict(kind=kind, pool=draw(st.integers(0, 8)), dot=draw(st.booleans()))
     opst = st.tuples(st.sampled_from(["inode", "lsdir", "lspart", "resolve", "read", "block", "frag", "stream", "xattr", "xdesc", "id", "mseek", "root", "cross"]),
                      st.integers(0, 10 ** 6), st.integers(0, 10 ** 6), st.integers(0, 10 ** 6), st.integers(1, 9))
     if kind == "readers":
@@ -43,7 +43,7 @@ def cases(draw, tier="quick"):
     elif kind == "failcopy":
         # the copy of the reader set runs out of memory at its k-th allocation: the original must not notice
         case["pre"] = draw(st.lists(opst, min_size=0, max_size=8))
-        case["k"] = draw(st.integers(1, 45))
+        case["k"] = draw(st.one_of(st.integers(1, 45), st.integers(1, 45), st.just(-1)))     # -1: out of file descriptors instead
         case["post"] = [("o", draw(opst)) for _ in range(draw(st.integers(2, 16)))]
     elif kind == "cz":
         case["cz"] = [(draw(st.sampled_from([1, 2, 4, 5, 6])), draw(st.one_of(st.just(0), st.integers(1, 40000), st.integers(1, 40000))), draw(st.integers(1, 10 ** 6)), draw(st.sampled_from([16, 100, 4096, 5000, 65536])), draw(st.integers(0, 1)))
@@ -88,7 +88,8 @@ def check_case(case, opts):
         of = os.path.join(sc, "ops.txt")
         with open(of, "w", encoding="latin-1") as fh:
             fh.write("\n".join(lines) + "\n")
-        r = vcommon.run([opts["bin_fault"] if case["kind"] == "failcopy" else opts["bin"], P["path"], of], timeout=120)
+        r = vcommon.run([opts["bin_fault"] if case["kind"] == "failcopy" else opts["bin"], P["path"], of], timeout=120,
+                        env={"VERIF_DIR_READER_FLAGS": "1"} if case.get("dot") else None)
         out = r.out.decode(errors="replace")
         prog = "\n".join(lines)
         if r.timeout:
